@@ -12,7 +12,7 @@ from mc.run import Stats, explore
 
 ASSUME = [
     "UTC projects, default calendar; calendar day / ISO week (date.isocalendar) on the project clock",
-    "limit values dailymax {1h,1.5h,1.6h,2h,2.5h,3.5h,4h,90min,1d}, weeklymax {5h,7.5h,10h,10.6h,16h,450min,1d,0.5w} (fractions of a slot in both rounding directions; every unit: min, h, d = 8 h, w = 40 h), and a daily plus a weekly limit on the same entity {2h+5h, 1.5h+7.5h, 4h+10h, 1h+16h}; resolutions {60,30,15} min",
+    "limit values dailymax {1h,1.5h,1.6h,2h,2.5h,3.5h,4h,90min,1d}, weeklymax {5h,7.5h,10h,10.6h,16h,450min,1d,0.5w} (fractions of a slot in both rounding directions; every unit: min, h, d = 8 h, w = 40 h), and a daily plus a weekly limit on the same entity {2h+5h, 1.5h+7.5h, 4h+10h, 1h+16h}; resolutions {60,30,15} min, and 50 min (which does not divide a day) for the horizons fits / overrun at four placements",
     "the whole scheduled horizon is aggregated, including the part beyond the declared project end that the scheduler adds",
     "limits count booked working time of every member of a limited group / every task below a limited task (person-time)",
 ]
@@ -37,7 +37,7 @@ def universe(tier):
         for kind, vals in (("dailymax", DAILY), ("weeklymax", WEEKLY), ("both", BOTH)):
             for val in vals:
                 for place in PLACES:
-                    for L in Ls:
+                    for L in Ls + ((50,) if (hz in ("fits", "overrun") and place in ("res", "task", "group", "container")) else ()):   # 50 min does not divide a day
                         if hz == "long" and (L != 60 or kind != "weeklymax" or val != "5h" or place not in ("res", "task")):
                             continue
                         if tier == "quick" and hz in ("ye2026", "ye2020") and (L != 60 or place not in ("res", "task", "group")):
